@@ -1,5 +1,198 @@
-(* C06 — placeholder while the proofs are being assembled (replaced below). *)
-From Quiver Require Import heap.HeapVm.
-Theorem C06_model_exists : exists h : heap, cells h = [].
-Proof. exists empty_heap. reflexivity. Qed.
-Print Assumptions C06_model_exists.
+(* C06 — Binary heap accounting is exact: no leak, no premature free, no aliasing damage.
+
+   Model: theories/heap/Heap.v (heap + choke points), theories/heap/HeapVm.v (every instruction
+   handler, the select machine, notify_*, spawn_process, frame auto-pop and completion of
+   Executor::step, replace_locals / release_orphan_locals; debug-build semantics: every
+   debug_assert and every Vec index is a Panic outcome), theories/heap/HeapVmFix.v (spawn_process
+   after hooks/fix_F46.patch). `true` as first argument of a handler = the code after
+   hooks/fix_F9.patch, `false` = the code as found.
+
+   Vocabulary (theories/heap/HeapInv.v, HeapExec.v, HeapProofs.v):
+     RC x      := forall i, rc_at (x_heap x) i = cnt i (all_refs x)
+                  — refcounts[i] = the exact number of occurrences of Heap(i) in ALL roots: every
+                  process's stack, locals, mailbox, Ok result, select sources and `receiving`,
+                  awaiting values, plus one per constant-cache entry (stronger than the code's own
+                  check_refcounts, which only demands  > 0 <=> reachable).
+     XInv x    := WFh (x_heap x) /\ RC x /\ NoDup (map fst (x_procs x))
+     WFh h     := refcounts/freed parallel to heap, free = {i | freed i} without duplicates,
+                  freed i -> refcounts i = 0, pending_free indices in range
+     Inv o h p := WFh h /\ forall i, rc_at h i = cnt i o + cnt i (cb_refs h) + cnt i (proc_refs p)
+                  — the same exact count for the RUNNING process taken out of the map, `o` = the
+                  references held by all other processes
+     Good o h p r := the result r of a handler started in (h, p), on its Ok AND its Err path,
+                  satisfies Inv o again, keeps the bytes of every non-free slot (`stable`), and
+                  leaves the process result untouched (a Panic result claims nothing)
+     NoOrphan h := every slot with count 0 is freed or queued in pending_free.
+
+   PARTIAL (what no theorem here covers):
+   * `refcount_exact` for the code AS FOUND is false (finding F9): refuted below at
+     initialize_select, notify_result and call_receive_function; the un-negated theorems are for
+     the repaired code (fx = true). Sites not touched by F9 are proved for both.
+   * A failing completion propagates the error over an awaiter's Ok result without releasing it
+     (finding F45h, refuted below); C06_refcount_exact_step carries the corresponding premise.
+   * reclaim_complete needs NoOrphan, which spawn_process breaks (finding F46, refuted below);
+     NoOrphan-preservation is proved for the heap primitives only, not per handler.
+   * Theorems are conditional on the operation returning `Val`/not panicking: absence of the
+     debug-assert panics (release underflow, retain of a freed slot) is validated by the
+     correspondence and the oracle on the real code, not proved.
+   * Spawn/Send with fewer than two operands, or Send to a non-process target holding a binary,
+     leak in the code (raw pops); they are excluded by `instr_pre` (what C07's verifier and typing
+     guarantee) — see HeapHandlers.handle_spawn_underflow_leaks / handle_send_badtarget_leaks. *)
+From Quiver Require Import heap.HeapAll.
+Require Import List.
+Import ListNotations.
+Local Open Scope nat_scope.
+
+(* ---- refcount_exact: choke points ---- *)
+Theorem C06_refcount_exact_chokepoints : forall o v n h p,
+  Inv o h p ->
+  Good o h p (push_value v h p) /\ Good o h p (pop_value h p) /\
+  Good o h p (push_local v h p) /\ Good o h p (truncate_locals n h p).
+Proof. exact chokepoints_RC. Qed.
+Print Assumptions C06_refcount_exact_chokepoints.
+
+(* ---- refcount_exact: every one of the 24 instruction handlers (repaired code) ---- *)
+Theorem C06_refcount_exact_handlers : forall P pid i x o h p,
+  instr_pre p i -> Inv o h p -> Good o h p (exec_instr true P pid i x h p).
+Proof. exact exec_instr_good_all. Qed.
+Print Assumptions C06_refcount_exact_handlers.
+
+(* the handlers F9 does not touch are proved for the code as found as well *)
+Theorem C06_refcount_exact_handlers_as_found : forall fx P pid i x o h p,
+  i <> ISelect -> instr_pre p i -> Inv o h p -> Good o h p (exec_instr fx P pid i x h p).
+Proof. exact exec_instr_good. Qed.
+Print Assumptions C06_refcount_exact_handlers_as_found.
+
+(* ---- refcount_exact + bytes_stable BETWEEN TIME SLICES: one Executor::step, any quantum q, any
+   process, any outside inputs (ppf, instruction loop, frame auto-pop, completion, notification
+   of awaiters) ---- *)
+Theorem C06_refcount_exact_step : forall P x pid q xs dflt x',
+  XInv x ->
+  (forall pid0 p0 h0, pid = Some pid0 -> get_proc x pid0 = Some p0 -> ppf (x_heap x) = Val h0 ->
+     result_refs (p_result p0) = [] /\ SlicePre true P instr_pre pid0 q xs dflt h0 p0) ->
+  (forall pid0 w pw, pid = Some pid0 -> w <> pid0 -> get_proc x w = Some pw ->
+     has_key pid0 (p_await pw) = true -> result_refs (p_result pw) = []) ->
+  exec_step true P x pid q xs dflt = Val x' ->
+  XInv x' /\
+  (forall i, cnt i (all_refs x) > 0 -> cnt i (all_refs x') > 0 ->
+     bytes_at (x_heap x') i = bytes_at (x_heap x) i /\ freed_at (x_heap x') i = false).
+Proof. exact exec_step_RC. Qed.
+Print Assumptions C06_refcount_exact_step.
+
+(* ---- refcount_exact + bytes_stable for the operations that reach an executor between slices ---- *)
+Theorem C06_refcount_exact_notify_message : forall x pid v data x',
+  XInv x -> notify_message x pid v data = Val x' -> XInv x' /\ xstable x x'.
+Proof. exact notify_message_XInv. Qed.
+Print Assumptions C06_refcount_exact_notify_message.
+
+Theorem C06_refcount_exact_notify_result : forall x awaiter awaited v data x',
+  XInv x -> notify_result true x awaiter awaited v data = Val x' -> XInv x' /\ xstable x x'.
+Proof. exact notify_result_XInv. Qed.
+Print Assumptions C06_refcount_exact_notify_result.
+
+Theorem C06_refcount_exact_notify_spawn : forall x pid pv x',
+  refs_of pv = [] -> XInv x -> notify_spawn x pid pv = Val x' -> XInv x' /\ xstable x x'.
+Proof. exact notify_spawn_XInv. Qed.
+Print Assumptions C06_refcount_exact_notify_spawn.
+
+Theorem C06_refcount_exact_spawn_process : forall x pid fn caps arg data pers x',
+  XInv x -> get_proc x pid = None ->
+  spawn_process x pid fn caps arg data pers = Val x' -> XInv x' /\ xstable x x'.
+Proof. exact spawn_process_XInv. Qed.
+Print Assumptions C06_refcount_exact_spawn_process.
+
+Theorem C06_refcount_exact_replace_locals : forall x pid keep x',
+  XInv x -> compact_locals x pid keep = Val x' -> XInv x' /\ xstable x x'.
+Proof. exact compact_locals_XInv. Qed.
+Print Assumptions C06_refcount_exact_replace_locals.
+
+Theorem C06_refcount_exact_release_orphan_locals : forall x pid keep x',
+  XInv x -> release_orphan_locals x pid keep = Val x' -> XInv x' /\ xstable x x'.
+Proof. exact release_orphan_locals_XInv. Qed.
+Print Assumptions C06_refcount_exact_release_orphan_locals.
+
+Theorem C06_refcount_exact_resume : forall x pid fn, XInv x -> XInv (resume_process x pid fn).
+Proof. exact resume_process_XInv. Qed.
+Print Assumptions C06_refcount_exact_resume.
+
+(* ---- no_use_after_free ---- *)
+Theorem C06_no_use_after_free : forall x,
+  XInv x -> forall i, freed_at (x_heap x) i = true -> cnt i (all_refs x) = 0.
+Proof. exact no_use_after_free_x. Qed.
+Print Assumptions C06_no_use_after_free.
+
+(* ---- reclaim_sound / reclaim_complete (process_pending_free never panics on a well-formed heap) ---- *)
+Theorem C06_reclaim_total : forall h, WFh h -> exists h', ppf h = Val h'.
+Proof. exact ppf_total. Qed.
+Print Assumptions C06_reclaim_total.
+
+Theorem C06_reclaim_sound : forall h h',
+  WFh h -> ppf h = Val h' ->
+  forall i, freed_at h' i = true -> freed_at h i = false -> rc_at h i = 0 /\ In i (pending h).
+Proof. exact reclaim_sound_l. Qed.
+Print Assumptions C06_reclaim_sound.
+
+Theorem C06_reclaim_complete : forall h h',
+  WFh h -> NoOrphan h -> ppf h = Val h' ->
+  forall i, i < length (cells h') -> rc_at h' i = 0 -> freed_at h' i = true.
+Proof. exact reclaim_complete_l. Qed.
+Print Assumptions C06_reclaim_complete.
+
+(* ---- bytes_stable: materialize flattens in place, denotation unchanged ---- *)
+Theorem C06_bytes_stable_materialize : forall h i h' bs,
+  materialize h i = Val (h', bs) ->
+  rcs h' = rcs h /\ free h' = free h /\ pending h' = pending h /\ freed h' = freed h /\
+  cbins h' = cbins h /\ length (cells h') = length (cells h) /\
+  (forall j, bytes_at h' j = bytes_at h j) /\ bs = bytes_at h i.
+Proof. exact materialize_spec. Qed.
+Print Assumptions C06_bytes_stable_materialize.
+
+(* ---- transfer_copies ---- *)
+Theorem C06_transfer_copies : forall h h2 v v' data h2' v'',
+  WFh h2 -> extract h v = Val (v', data) -> inject h2 v' data = Val (h2', v'') ->
+  denote h2' v'' = denote h v.
+Proof. exact transfer_copies_l. Qed.
+Print Assumptions C06_transfer_copies.
+
+(* ---- the code as found: refuted (F9, F46, F45h), witnesses by computation ---- *)
+Theorem C06_F9_initialize_select_refuted :
+  exists o h p pid now,
+    Inv o h p /\ p_sel p = None /\
+    match initialize_select false pid now h p with
+    | MVal _ h' p' => ~ Inv o h' p'
+    | _ => False
+    end.
+Proof. exact initialize_select_refuted. Qed.
+Print Assumptions C06_F9_initialize_select_refuted.
+
+Theorem C06_F9_notify_result_refuted :
+  exists x v, XInv x /\ exists x', notify_result false x 0 1 v [] = Val x' /\ ~ RC x'.
+Proof. exact notify_result_refuted. Qed.
+Print Assumptions C06_F9_notify_result_refuted.
+
+Theorem C06_F9_call_receive_refuted : forall P,
+  exists o h p ridx midx msg src x,
+    Inv o h p /\ p_sel p <> None /\
+    match call_receive_function false P ridx midx msg src x h p with
+    | MVal _ h' p' | MErr _ h' p' => ~ Inv o h' p'
+    | MPanic _ => False
+    end.
+Proof. exact call_receive_refuted. Qed.
+Print Assumptions C06_F9_call_receive_refuted.
+
+Theorem C06_F46_spawn_orphans_refuted :
+  exists x x', XInv x /\ NoOrphan (x_heap x) /\
+    spawn_process x 1 (Some 0) [VBin 0] (VInt 0%Z) [[1%Z]] false = Val x' /\ ~ NoOrphan (x_heap x').
+Proof. exact spawn_orphans_refuted. Qed.
+Print Assumptions C06_F46_spawn_orphans_refuted.
+
+Theorem C06_F45h_fail_result_refuted : exists x, XInv x /\ ~ RC (fail_result x 0).
+Proof. exact fail_result_refuted. Qed.
+Print Assumptions C06_F45h_fail_result_refuted.
+
+(* ---- non-vacuity: a heap with a shared, sliced binary in two processes satisfies the invariant ---- *)
+Theorem C06_nonvacuous_shared_sliced :
+  XInv sh_exec /\
+  bytes_at (x_heap sh_exec) 1 = [2; 3]%Z /\ cnt 0 (all_refs sh_exec) = 3 /\ cnt 1 (all_refs sh_exec) = 1.
+Proof. exact (conj shared_sliced_RC shared_sliced_bytes). Qed.
+Print Assumptions C06_nonvacuous_shared_sliced.
